@@ -26,7 +26,7 @@ structure S (α : Type) where
 structure Tabs where
   ppi : Nat                     -- ppi_offset
   ppo : Nat                     -- ppo_offset
-  pippi : List (Nat × Nat)      -- pippi_s_locs zipped with the signal of pippi_c_locs: (p, ppi_offset + p)
+  pippi : List (Nat × Nat)      -- pippi_s_locs zipped with the signal of pippi_c_locs: (p, ppi_offset + p), slots with memory only
   poppo : List (Nat × Nat)      -- poppo_s_locs zipped with the signal of poppo_c_locs: (p, captured signal)
   ppio : List Nat               -- ppio_s_locs
 deriving Repr, DecidableEq
@@ -48,13 +48,16 @@ def piS (net : Net) : List Nat := (List.range net.io.length).filter fun p => (sN
 def poS (net : Net) : List Nat := (List.range net.io.length).filter fun p => ((sNodeAt net p).inPin 0).isSome
 /-- `ppio_s_locs = arange(len(io_nodes), s_len)`: every flip-flop and latch -/
 def ppioS (net : Net) : List Nat := List.range' net.io.length (net.sNodes.length - net.io.length)
+/-- the state elements `s_to_c` assigns: those whose (P)PI slot has memory (`c_locs[ppi_offset + p] >= 0`, i.e. `len(n.outs) > 0`);
+    a flip-flop / latch without output pin list has none and is skipped (sim.py, fix 7a998c8: before, `s_to_c` stored through -1) -/
+def ppiUsedS (net : Net) : List Nat := (ppioS net).filter fun p => (sNodeAt net p).outs.length > 0
 
 def tabsOf (net : Net) (strip : Bool) : Tabs :=
   let ix := net.idx
   let st := stemsOf net strip
   let ppio := ppioS net
   { ppi := ix.ppi, ppo := ix.ppo,
-    pippi := (piS net ++ ppio).map fun p => (p, ix.ppi + p),
+    pippi := (piS net ++ ppiUsedS net).map fun p => (p, ix.ppi + p),
     poppo := (poS net ++ ppio).map fun p => (p, capSigW net st p),
     ppio := ppio }
 
@@ -141,8 +144,6 @@ def nextRow {α} (net : Net) (strip : Bool) (merge : α → α → α) (sol : Na
 
 /-! ### decidable side conditions of the memory-level statement (C01 `cycle_on_memory`), evaluated on the real tables -/
 
-/-- every flip-flop / latch has an output pin list (so a (P)PI slot: `s_to_c` then writes only allocated rows) -/
-def stateOutsB (net : Net) : Bool := (ppioS net).all fun q => decide (0 < (sNodeAt net q).outs.length)
 /-- the (P)PO slot of a flip-flop / latch with open data pin is the row of the constant slot (the D9 repair, read off the table) -/
 def zeroCapB (p : MapIn) : Bool :=
   (ppioS p.net).all fun q => ((sNodeAt p.net q).inPin 0).isSome || p.loc (p.ix.ppo + q) == p.loc p.ix.zero
